@@ -359,13 +359,23 @@ func (r *rng) smProgram() *SX {
 
 func init() {
 	monitors["C01"] = func(r *rng, scale int, m *monOut, tmp string) {
+		// one failure site, a message that depends on the drawn values (non-fatal failures share the
+		// site of `pendingFailure`): the message Check reports must be the one of the final test case
+		sameSite := []string{
+			"((draw a (i 0 1000)) (if (ge a 500) (error 1)) (if (lt a 500) (error 3)))",
+			"((draw a (slice (i 0 100) 0 8)) (if (lenge a 3) (error 1)) (if (lenlt a 3) (error 2)))",
+			"((draw a (u 0 18446744073709551615)) (draw b (bool)) (if (ge a 1000) (error 4)) (if (lt a 1000) (error 5)) (cleanup (emit 40)))",
+		}
 		for i := 0; i < 60*scale; i++ {
 			var prog *SX
-			switch r.intn(4) {
+			switch r.intn(5) {
 			case 0:
 				prog = r.engineProgram()
 			case 1:
 				prog = r.smProgram()
+			case 2:
+				prog = mustSX(sameSite[r.intn(len(sameSite))])
+				m.tag("same-site-messages")
 			default:
 				prog = r.rejectingProgram()
 			}
